@@ -133,6 +133,16 @@ def same (a b : Json) : Bool := a.compress == b.compress
 def judge (j : Json) : R Verdict := do
   let i ← nat (← field j "i")
   let gen ← str (← field j "gen")
+  -- a - b = a + (-b) where the reducer meets values: whenever one side has a meaning, the other has the same
+  if (fieldD j "probe").compress == "\"expr-law\"" then
+    let obs ← field j "obs"
+    let l := fieldD obs "sub"
+    let r := fieldD obs "add_neg"
+    let mut spec : List String := []
+    if !(isNull (fieldD l "panic")) || !(isNull (fieldD r "panic")) then spec := spec ++ ["no-panic:expr-law"]
+    else if (l.getObjVal? "ok").isOk || (r.getObjVal? "ok").isOk then
+      if l.compress != r.compress then spec := spec ++ ["sub_is_add_neg:reduced-expressions"]
+    return { i, corr := [], spec, key := fnv ((fieldD j "a").compress ++ "-" ++ (fieldD j "b").compress), tags := [gen], nt := true }
   let ea ← parseV (← field j "a")
   let eb ← parseV (← field j "b")
   let ec ← parseV (← field j "c")
